@@ -202,6 +202,9 @@ def posify_index(shape, ind):
             return ind
     if isinstance(ind, (np.ndarray, list)) and not math.isnan(shape):
         ind = np.asanyarray(ind)
+        if ind.dtype.kind in "iu" and ind.dtype.itemsize < np.dtype(np.intp).itemsize:
+            # a narrow index dtype (int8, ...) cannot hold ind + shape
+            ind = ind.astype(np.intp)
         return np.where(ind < 0, ind + shape, ind)
     return ind
 
